@@ -9,6 +9,8 @@ import (
 	"math/rand"
 	"os"
 	"strings"
+
+	"cuelabs.dev/go/oci/ociregistry"
 )
 
 func init() { commands["reg"] = regCmd }
@@ -28,6 +30,8 @@ func regCmd(args []string) error {
 	profile := fs.String("profile", "all", "op mix for random scenarios: all, upload, range, manifest, list")
 	out := fs.String("out", "", "trace file")
 	snap := fs.Bool("snap", true, "record a state snapshot after every step")
+	record := fs.Bool("record", true, "record the backend calls behind stacks with an HTTP hop")
+	honest := fs.Bool("honest", false, "uploads only as a well-behaved caller drives them (needed for stacks with an HTTP hop)")
 	fs.Parse(args)
 	f, err := os.Create(*out)
 	if err != nil {
@@ -49,16 +53,27 @@ func regCmd(args []string) error {
 	total := 0
 	run := func(sc Scenario) error {
 		env := &stackEnv{imm: sc.Imm}
+		var rec *recorder
+		if *record && strings.Contains(sc.Stack, "http") && !strings.Contains(sc.Stack, "sub(") && !strings.Contains(sc.Stack, "unify") {
+			env.wrapMem = func(r ociregistry.Interface) ociregistry.Interface {
+				rec = &recorder{Interface: r, cat: cat}
+				return rec
+			}
+		}
 		top, rest, err := env.build(sc.Stack)
 		if err != nil || strings.TrimSpace(rest) != "" {
 			return fmt.Errorf("stack %q: %v %q", sc.Stack, err, rest)
 		}
 		defer env.close()
-		w := &world{cat: cat, top: top, writers: map[string]BlobWriterT{}, ids: map[string]string{}, out: enc}
-		if *snap && len(env.mems) == 1 {
-			w.snapOf = env.mems[0]
+		w := &world{cat: cat, top: top, writers: map[string]BlobWriterT{}, ids: map[string]string{}, out: enc, rec: rec, quiesce: env.quiesce, setOp: env.curOp.Store}
+		if *snap {
+			for _, m := range env.mems {
+				w.snapAll = append(w.snapAll, m)
+			}
+			w.prefix = env.subPrefix
 		}
-		w.emit(ev{"op": "reset", "imm": sc.Imm, "stack": sc.Stack})
+		w.emit(ev{"op": "reset", "imm": sc.Imm, "stack": sc.Stack, "hops": strings.Count(sc.Stack, "http"), "rec": rec != nil,
+			"omitdigest": strings.Contains(sc.Stack, "omitdigest")})
 		ctx := context.Background()
 		for _, op := range sc.Ops {
 			w.step(ctx, op)
@@ -93,7 +108,7 @@ func regCmd(args []string) error {
 		if *immMode != "both" {
 			imm = *immMode == "true"
 		}
-		ops := randOps(rnd, cat, *steps, *profile)
+		ops := randOps(rnd, cat, *steps, *profile, *honest)
 		for _, st := range stackList {
 			if err := run(Scenario{Imm: imm, Stack: st, Ops: ops}); err != nil {
 				return err
